@@ -187,8 +187,13 @@ PROPS = {
         "trusted": ["that evaluation-time warning collection does not change results is checked by the C01 suite (four entry points)"], "assumptions": [],
     },
     "C07": {
-        "lean_targets": ["Pep508.Theorems.C07", "Pep508.Theorems.C06", "Pep508.Theorems.C17", "Pep508.Theorems.C18"],
-        "theorems": ["Pep508.C07.name_accepted", "Pep508.C07.leading_ws_same_diagnosis", "Pep508.C18.parse_url_is_rule", "Pep508.C06.requirement_never_panics",
+        "lean_targets": ["Pep508.Theorems.C07", "Pep508.Theorems.C07b", "Pep508.Theorems.C06", "Pep508.Theorems.C17", "Pep508.Theorems.C18"],
+        "theorems": ["Pep508.C07.layout_accepted", "Pep508.C07.layout_accepted_marker", "Pep508.C07.layout_calls", "Pep508.C07.layout_calls_spans",
+                     "Pep508.C07.recorded_texts_trim", "Pep508.C07.layout_never_rejected", "Pep508.C07.layout_components", "Pep508.C07.layout_components_marker",
+                     "Pep508.C07.whitespace_irrelevant", "Pep508.C07.whitespace_irrelevant_marker", "Pep508.C07.printed_is_layout",
+                     "Pep508.C07.url_semicolon_glued_swallows_marker", "Pep508.C07.trailing_blank_after_url_semicolon_changes_outcome",
+                     "Pep508.C07.blank_inside_url", "Pep508.C07.empty_parentheses_call",
+                     "Pep508.C07.name_accepted", "Pep508.C07.leading_ws_same_diagnosis", "Pep508.C18.parse_url_is_rule", "Pep508.C06.requirement_never_panics",
                      "Pep508.C06.requirement_external_calls", "Pep508.parseMarkers_total", "Pep508.C17.chain_skips_dropped"],
         "suites": [{"name": "req", "args": ["C07"]}, {"name": "mparse", "args": ["C07"]}],
         "rule": "grammar derivations (name x optional extras x none | bare specifiers | parenthesised specifiers | @ URL x optional marker) over pools of names, extras, PEP 440 "
@@ -370,11 +375,11 @@ MANIFEST_TEXT = {
         "note": _NOTE + "reporter independence: the reporter is write-only in the model; evaluation-time collectors are compared by the C01 suite.",
     },
     "C07": {
-        "technique": "Lean 4 theorems for the parts of the grammar that are pure scanning (names accepted and normalised, URL end rule, totality, spans of external calls) + "
-                     "differential Lean model of the whole requirement parser + derivation x layout oracle",
-        "text": "Derivations of the PEP 508 grammar x whitespace layouts are accepted with exactly the derivation's components; outcomes match the Lean model of "
-                "parse_name / parse_extras / specifier scans / parse_url / marker hand-off including error spans. No Lean theorem yet states acceptance of all derivations.",
-        "note": _NOTE + "partial: the acceptance theorem (parse (render d) = components d) is not proved; `===` inside markers is a known finding (K2).",
+        "technique": "Lean 4 theorem: the model requirement parser accepts EVERY whitespace layout of every well-formed requirement value (no kind, bare or parenthesised specifiers, URL; optional extras; optional marker) and returns the value's components, the same for all layouts "
+                     "+ differential Lean model of the whole requirement parser + derivation x layout oracle",
+        "text": "layout_accepted / layout_accepted_marker / layout_calls / whitespace_irrelevant over all values satisfying ReqVal.WFL and all layouts (13 independent whitespace runs, parenthesised or bare) satisfying the grammar's mandatory separator (Layout.Fits: a blank between URL and `;`; a URL ending in `;`/`#` takes no trailing blank — proved necessary by url_semicolon_glued_swallows_marker / trailing_blank_after_url_semicolon_changes_outcome); the texts handed to the external specifier parser are the specifier texts up to surrounding blanks (recorded_texts_trim). "
+                "Derivations x layouts generated by the harness are accepted with exactly the derivation's components by the implementation; every outcome matches the model including error spans.",
+        "note": _NOTE + "partial: the marker parser's result on the marker text is a hypothesis of the theorem (the marker grammar is C01/C17); pep440_rs accepting a specifier text with surrounding blanks is external; `===` inside markers is a known finding (K2).",
     },
     "C12": {
         "technique": "Lean 4 theorems: complexify = AND with the range marker (meaning for all bounds; identity of diagrams via the canonicity theorem), simplify agrees inside R, "
